@@ -112,3 +112,35 @@ def check_required_rules(chk):
             chk.ok("G-REQ", key, {"enforced_in": where_fn})
         else:
             chk.violation("G-REQ", key, "%s:%s" % (rel(lst[0]["file"]), lst[0]["line"]), "missing validator rule: " + why)
+
+
+# (function, first, then): the call to `first` precedes the call to `then` in source order (both in the same body):
+# invariants of rules/haz_invariants.json rely on these orders
+ORDER = [
+    ("sbe_schema_validator::validate_members", "validate_group_header", "validate_members",
+     "a group's dimension type is validated before its members (validate_block_length_representation and the generators "
+     "dereference it)"),
+    ("sbe_schema_validator::validate_messages", "validate_message_header", "validate_message",
+     "the message header type is validated before any message"),
+    ("sbe_schema_validator::validate", "validate_types", "validate_messages", "types (sizes, offsets) are validated before messages use them"),
+]
+
+
+def check_order(chk):
+    f = gen.facts()
+    by_short = {}
+    for fn in gen.sbeppc_functions(f):
+        by_short.setdefault(gguard.short_fn(fn), []).append(fn)
+    for fname, first, then, why in ORDER:
+        lst = by_short.get(fname)
+        if not lst:
+            chk.broke("G-CALL.order: %s not found" % fname)
+            continue
+        for fn in lst[:1]:
+            seq = [(n.get("callee") or {}).get("name") for n in walk(fn["body"]) if (n.get("callee") or {}).get("name") in (first, then)]
+            key = "order:%s:%s<%s" % (fname, first, then)
+            if first in seq and then in seq and seq.index(first) < seq.index(then):
+                chk.ok("G-CALL.order", key, {"sequence": seq[:6]})
+            else:
+                chk.violation("G-CALL.order", key, "%s:%s" % (rel(fn["file"]), fn["line"]),
+                              "%s: %s is no longer called before %s (%s)" % (fname, first, then, why))
